@@ -103,7 +103,20 @@ fn sym_phase(name: &'static str, shapes_f: Vec<Vec<f64>>, bounds: serde_json::Va
             if fe.len() == 1 || ge.len() == 1 {
                 cx.class(14);
             }
+            // identical end lists: also the same object on both sides (&f + &f)
+            let alias = !differ && all_bits_eq(fe, &ge);
             let res = guard(|| if sub { &f - &g } else { &f + &g });
+            if alias {
+                let res2 = guard(|| if sub { &f - &f } else { &f + &f });
+                let same = match (&res, &res2) {
+                    (Ok(a), Ok(b)) => a.segments.len() == b.segments.len() && a.segments.iter().zip(&b.segments).all(|(p, q)| p.end.to_bits() == q.end.to_bits() && p.poly == q.poly),
+                    (Err(_), Err(_)) => true,
+                    _ => false,
+                };
+                if !same {
+                    return Err(Fail::new(format!("piecewise {} with the same object on both sides differs from the result for an equal copy", if sub { "-" } else { "+" }), json!({"f_ends": fjs(fe)})));
+                }
+            }
             cx.evals(1);
             let op = if sub { "-" } else { "+" };
             let detail = |obs: serde_json::Value| json!({"f_ends": fjs(fe), "g_ends": fjs(&ge), "op": op, "x": fj(x), "observation": obs});
@@ -244,7 +257,20 @@ pub fn check(thorough: bool, _seed: u64) -> Check {
                 long.push(e);
             }
         }
-        phases.push(sym_phase("provenance-long-operands", long, json!({"operands": "every ordered pair among 1..n (n=6,7,9,17,33; 12,14,65,129 thorough), its even / odd / half-shifted sub-grids, its first half, its last end alone, and a copy with a duplicated last end"}), false));
+        // aperiodic interleavings: the grid 1..n split between the operands by a bit pattern without a short period
+        // (index arithmetic such as bitsets, blocks or strides behaves differently from one stretch of the result to the next)
+        for n in [40usize, 70, 100].into_iter().chain(if thorough { vec![140usize, 200, 300] } else { vec![] }) {
+            for (mul, add, md, lt) in [(1usize, 0usize, 3usize, 1usize), (7, 3, 11, 5), (5, 1, 13, 6)] {
+                let pick = |i: usize| ((i * i * mul + i * add + i / 7) % md) < lt;
+                let f: Vec<f64> = (1..=n).filter(|&i| pick(i)).map(|i| i as f64).collect();
+                let g: Vec<f64> = (1..=n).filter(|&i| !pick(i)).map(|i| i as f64).collect();
+                if !f.is_empty() && !g.is_empty() {
+                    long.push(f);
+                    long.push(g);
+                }
+            }
+        }
+        phases.push(sym_phase("provenance-long-operands", long, json!({"operands": "every ordered pair among 1..n (n=6,7,9,17,33; 12,14,65,129 thorough), its even / odd / half-shifted sub-grids, its first half, its last end alone, and a copy with a duplicated last end; and the grids 1..40, 1..70, 1..100 (140, 200, 300 thorough) split between two operands by three aperiodic bit patterns"}), false));
     }
     if thorough {
         let v6 = shapes(&[1.0, 2.0, 3.0, 4.0, 5.0, 6.0], 6).into_iter().filter(|e| e.len() == 6 || e.len() <= 2).collect();
